@@ -46,7 +46,7 @@ def result_of(case: dict) -> dict:
 def run(ctx):
     consts = {"MaxN": "4" if ctx.quick else "5", "MaxTwoOut": "3" if ctx.quick else "4"}
     cases_file, cases = p3.generate(ctx, "Preschedule", consts, env={"PASS": "generate"})
-    results = [result_of(c) for c in cases]
+    cases, results = p3.execute(ctx, cases, cases_file, result_of)
     rf = ctx.scratch / "c16_results.json"
     rf.write_text(json.dumps(results))
     bad = p3.judge(ctx, "Preschedule", consts, cases_file, rf, env={"PASS": "judge"})
